@@ -3113,14 +3113,22 @@ impl Translator {
                     self.collect_captures_expr(&arg.val, captures, mono);
                 }
             }
-            ExprKind::AnonymousFunction(..)
-            | ExprKind::MemberAccessLeadingDot(..)
+            // whatever a nested lambda or task captures must also be available in
+            // (and so captured by) the function that creates it
+            ExprKind::AnonymousFunction(args, _, body) => {
+                let (_, inner, _) = self.calculate_args_captures_locals(&None, args, body, mono);
+                captures.extend(inner);
+            }
+            ExprKind::TaskBlock(body) => {
+                let (_, inner, _) = self.calculate_args_captures_locals(&None, &[], body, mono);
+                captures.extend(inner);
+            }
+            ExprKind::MemberAccessLeadingDot(..)
             | ExprKind::Nil
             | ExprKind::Int(..)
             | ExprKind::Float(..)
             | ExprKind::Bool(..)
             | ExprKind::Str(..) => {}
-            ExprKind::TaskBlock(_) => unimplemented!(),
         }
     }
 
